@@ -5,7 +5,8 @@ package main
 // and conversion from the real parser's AST.
 //
 // Token format (one token, no spaces): s-expressions with `(`, `)`, `,`.
-//   prog    = (TYPEDEFS,ENUMS,STRUCTS,SERVICES,SCOPES,NAMESPACES,CONSTS)   each a list (x,y,…) or ()
+//   prog    = (TYPEDEFS,ENUMS,STRUCTS,SERVICES,SCOPES,NAMESPACES,CONSTS[,INCLUDES])   each a list (x,y,…) or ()
+//   include = (name,(typedef,…),(declared struct/enum name,…))      a type atom `inc.Name` is include-qualified
 //   typedef = (name,ty)
 //   ty      = atom (base type iff the atom is one of the 8 base type names, else a named type)
 //           | (l,ty) | (s,ty) | (m,ty,ty)
@@ -107,7 +108,15 @@ type a18GConst struct {
 	value string
 }
 
+// a18GInc: an included file. `prog` is the whole included program when the generator made it;
+// a program read back from a token has only the typedefs and empty struct declarations.
+type a18GInc struct {
+	name string
+	prog *a18GProg
+}
+
 type a18GProg struct {
+	includes []*a18GInc
 	typedefs []*a18GTypedef
 	enums    []*a18GEnum
 	structs  []*a18GStruct
@@ -147,6 +156,9 @@ func a18CloneFields(fs []*a18GField) []*a18GField {
 }
 func (p *a18GProg) clone() *a18GProg {
 	q := &a18GProg{}
+	for _, in := range p.includes {
+		q.includes = append(q.includes, &a18GInc{in.name, in.prog.clone()})
+	}
 	for _, t := range p.typedefs {
 		q.typedefs = append(q.typedefs, &a18GTypedef{t.name, t.ty.clone()})
 	}
@@ -217,6 +229,9 @@ func a18IdlFields(fs []*a18GField, sep string) string {
 
 func (p *a18GProg) idl() string {
 	var b strings.Builder
+	for _, in := range p.includes {
+		fmt.Fprintf(&b, "include \"%s.frugal\"\n", in.name)
+	}
 	for _, n := range p.nss {
 		fmt.Fprintf(&b, "namespace %s %s\n", n.scope, n.value)
 	}
@@ -364,7 +379,25 @@ func (p *a18GProg) tok() string {
 	for _, c := range p.consts {
 		cs = append(cs, a18Lst([]string{c.name, c.ty.tok(), c.value}))
 	}
-	return a18Lst([]string{a18Lst(tds), a18Lst(ens), a18Lst(sts), a18Lst(svs), a18Lst(scs), a18Lst(nss), a18Lst(cs)})
+	secs := []string{a18Lst(tds), a18Lst(ens), a18Lst(sts), a18Lst(svs), a18Lst(scs), a18Lst(nss), a18Lst(cs)}
+	if len(p.includes) > 0 {
+		var incs []string
+		for _, in := range p.includes {
+			var itds, names []string
+			for _, t := range in.prog.typedefs {
+				itds = append(itds, a18Lst([]string{t.name, t.ty.tok()}))
+			}
+			for _, st := range in.prog.structs {
+				names = append(names, st.name)
+			}
+			for _, en := range in.prog.enums {
+				names = append(names, en.name)
+			}
+			incs = append(incs, a18Lst([]string{in.name, a18Lst(itds), a18Lst(names)}))
+		}
+		secs = append(secs, a18Lst(incs))
+	}
+	return a18Lst(secs)
 }
 
 // generic s-expression
@@ -480,11 +513,25 @@ func a18ProgOfTok(s string) (p *a18GProg, err error) {
 	if err != nil {
 		return nil, err
 	}
-	a18Need(n.list && len(n.kids) == 7, "prog")
+	a18Need(n.list && (len(n.kids) == 7 || len(n.kids) == 8), "prog")
 	for _, k := range n.kids {
 		a18Need(k.list, "section")
 	}
 	p = &a18GProg{}
+	if len(n.kids) == 8 {
+		for _, k := range n.kids[7].kids {
+			a18Need(k.list && len(k.kids) == 3 && k.kids[1].list && k.kids[2].list, "include")
+			ip := &a18GProg{}
+			for _, t := range k.kids[1].kids {
+				a18Need(t.list && len(t.kids) == 2, "include typedef")
+				ip.typedefs = append(ip.typedefs, &a18GTypedef{t.kids[0].atom, a18TyOfSx(t.kids[1])})
+			}
+			for _, d := range k.kids[2].kids {
+				ip.structs = append(ip.structs, &a18GStruct{kind: 's', name: d.atom})
+			}
+			p.includes = append(p.includes, &a18GInc{k.kids[0].atom, ip})
+		}
+	}
 	for _, k := range n.kids[0].kids {
 		a18Need(k.list && len(k.kids) == 2, "typedef")
 		p.typedefs = append(p.typedefs, &a18GTypedef{k.kids[0].atom, a18TyOfSx(k.kids[1])})
@@ -631,6 +678,27 @@ func a18PrefixOfReal(s string) []a18GPTok {
 
 func a18ProgOfReal(f *parser.Frugal) *a18GProg {
 	p := &a18GProg{}
+	var incNames []string
+	for name := range f.ParsedIncludes {
+		incNames = append(incNames, name)
+	}
+	sort.Strings(incNames)
+	for _, name := range incNames {
+		inc := f.ParsedIncludes[name]
+		ip := &a18GProg{}
+		for _, t := range inc.Typedefs {
+			ip.typedefs = append(ip.typedefs, &a18GTypedef{t.Name, a18TyOfReal(t.Type)})
+		}
+		for _, ss := range [][]*parser.Struct{inc.Structs, inc.Exceptions, inc.Unions} {
+			for _, st := range ss {
+				ip.structs = append(ip.structs, &a18GStruct{kind: 's', name: st.Name})
+			}
+		}
+		for _, en := range inc.Enums {
+			ip.structs = append(ip.structs, &a18GStruct{kind: 's', name: en.Name})
+		}
+		p.includes = append(p.includes, &a18GInc{name, ip})
+	}
 	for _, t := range f.Typedefs {
 		p.typedefs = append(p.typedefs, &a18GTypedef{t.Name, a18TyOfReal(t.Type)})
 	}
@@ -683,46 +751,106 @@ func (p *a18GProg) typedef(name string) *a18GTypedef {
 	return nil
 }
 
-// canon: the type with every typedef expanded (generated typedefs are acyclic by construction).
-func (p *a18GProg) canon(t *a18GTy) string { return p.canonD(t, 0) }
-func (p *a18GProg) canonD(t *a18GTy, d int) string {
+func a18SplitQual(name string) (inc, base string) {
+	if i := strings.IndexByte(name, '.'); i >= 0 {
+		return name[:i], name[i+1:]
+	}
+	return "", name
+}
+
+func (p *a18GProg) include(name string) *a18GInc {
+	for _, in := range p.includes {
+		if in.name == name {
+			return in
+		}
+	}
+	return nil
+}
+
+// canon: the type with every typedef expanded, each name read in the file it is written in: a plain
+// name of the main file is a declaration of the main file, `inc.n` a declaration of the include `inc`,
+// a plain name inside `inc` a declaration of `inc` (generated typedefs are acyclic by construction).
+func (p *a18GProg) canon(t *a18GTy) string { return p.canonD("", t, 0) }
+func (p *a18GProg) canonD(ns string, t *a18GTy, d int) string {
 	if d > 64 {
 		return "<cycle>"
 	}
 	switch t.kind {
 	case a18TyList:
-		return "list<" + p.canonD(t.v, d+1) + ">"
+		return "list<" + p.canonD(ns, t.v, d+1) + ">"
 	case a18TySet:
-		return "set<" + p.canonD(t.v, d+1) + ">"
+		return "set<" + p.canonD(ns, t.v, d+1) + ">"
 	case a18TyMap:
-		return "map<" + p.canonD(t.k, d+1) + "," + p.canonD(t.v, d+1) + ">"
+		return "map<" + p.canonD(ns, t.k, d+1) + "," + p.canonD(ns, t.v, d+1) + ">"
 	case a18TyNamed:
-		if td := p.typedef(t.name); td != nil {
-			return p.canonD(td.ty, d+1)
+		inc, base := a18SplitQual(t.name)
+		if inc == "" {
+			inc = ns
 		}
+		if inc == "" {
+			if td := p.typedef(base); td != nil {
+				return p.canonD("", td.ty, d+1)
+			}
+			return base
+		}
+		if in := p.include(inc); in != nil {
+			if td := in.prog.typedef(base); td != nil {
+				return p.canonD(inc, td.ty, d+1)
+			}
+		}
+		return inc + "." + base
 	}
 	return t.name
 }
 
-// reaches: does t mention typedef `name`, directly or through other typedefs?
-func (p *a18GProg) reaches(t *a18GTy, name string, d int) bool {
+// reaches: does t (written in the main file) mention the main file's typedef `name` (or, with a
+// dot, the included typedef `inc.name`), directly or through other typedefs?
+func (p *a18GProg) reaches(t *a18GTy, name string, d int) bool { return p.reachesNS("", t, name, d) }
+func (p *a18GProg) reachesNS(ns string, t *a18GTy, name string, d int) bool {
 	if t == nil || d > 64 {
 		return false
 	}
 	switch t.kind {
 	case a18TyList, a18TySet:
-		return p.reaches(t.v, name, d+1)
+		return p.reachesNS(ns, t.v, name, d+1)
 	case a18TyMap:
-		return p.reaches(t.k, name, d+1) || p.reaches(t.v, name, d+1)
+		return p.reachesNS(ns, t.k, name, d+1) || p.reachesNS(ns, t.v, name, d+1)
 	case a18TyNamed:
-		if t.name == name {
+		inc, base := a18SplitQual(t.name)
+		if inc == "" {
+			inc = ns
+		}
+		full := base
+		if inc != "" {
+			full = inc + "." + base
+		}
+		if full == name {
 			return true
 		}
-		if td := p.typedef(t.name); td != nil {
-			return p.reaches(td.ty, name, d+1)
+		if inc == "" {
+			if td := p.typedef(base); td != nil {
+				return p.reachesNS("", td.ty, name, d+1)
+			}
+		} else if in := p.include(inc); in != nil {
+			if td := in.prog.typedef(base); td != nil {
+				return p.reachesNS(inc, td.ty, name, d+1)
+			}
 		}
 	}
 	return false
+}
+
+// nameFree: no named type anywhere (base types and containers of base types).
+func (t *a18GTy) nameFree() bool {
+	switch t.kind {
+	case a18TyList, a18TySet:
+		return t.v.nameFree()
+	case a18TyMap:
+		return t.k.nameFree() && t.v.nameFree()
+	case a18TyNamed:
+		return false
+	}
+	return true
 }
 
 func (t *a18GTy) mentions(name string) bool {
